@@ -78,6 +78,19 @@ CLAIMS = {
         note="Trusted: hash() of element values; collision-freedom is not decided (statement excludes hash-equal pairs).",
         technique="CFG must-pass-through (store -> invalidation) + MRO resolution + dataflow slice of the fold + effect summaries",
         design="2/C16"),
+    "C04": dict(
+        text="Decided completely up to the trusted base: the promotion automaton is EXTRACTED from the source by a finite "
+             "abstract evaluator that runs the repo's own ASTs of infer_dtype (pre-loop / loop body / post-loop), "
+             "DataType.promote_with and infer_kind over 20 type tags (None, the 8 builtin kinds, list/dict/tuple, two "
+             "unrelated user classes, six strict subclasses). On the whole table: exchange and idempotence of the loop's "
+             "transition function at every reachable state up to observational equivalence (=> order and length "
+             "independence of EVERY finite sequence by induction), equality with the statement's join for all 16384 "
+             "type sets of the core domain and all small sets of the extended one, and for promote_with: equals the binary "
+             "join, never narrows, keeps nullability, idempotent, commutes, for every (dtype, value type) pair.",
+        note="Trusted: the evaluator's semantics of is/==/in/isinstance/issubclass/type() on type tags and of the statement "
+             "subset (anything outside the subset is exit 2, never a pass). Exhaustive over the finite tag domain.",
+        technique="finite abstract interpretation of the source (automaton extraction) + exhaustive law checking with partition refinement",
+        design="2/C04"),
 }
 
 PENDING = "static rules for this property are designed (DESIGN.md section 2) but not yet built in this round; not claimed yet"
